@@ -215,16 +215,21 @@ class Evaluator:
         if fi is None or fi.node.decorator_list or isinstance(fi.node, ast.AsyncFunctionDef):
             return None
         body = [st for st in fi.node.body if not (isinstance(st, ast.Expr) and isinstance(st.value, ast.Constant))]
-        if len(body) != 1 or not isinstance(body[0], ast.Return) or body[0].value is None:
+        # straight-line helpers: plain local assignments followed by one `return <expr>`
+        if not body or not isinstance(body[-1], ast.Return) or body[-1].value is None:
             return None
+        for st in body[:-1]:
+            if not (isinstance(st, ast.Assign) and len(st.targets) == 1 and isinstance(st.targets[0], ast.Name)) and not (isinstance(st, ast.AnnAssign) and isinstance(st.target, ast.Name) and st.value is not None):
+                return None
         a = fi.node.args
         if a.vararg or a.kwarg or any(x[0] == "star" for x in args) or any(k is None for k, _ in kw):
             return None
-        for n in ast.walk(body[0].value):
-            if isinstance(n, (ast.Yield, ast.YieldFrom, ast.Await, ast.NamedExpr, ast.Lambda)):
-                return None
-            if isinstance(n, ast.Name) and n.id == nm:
-                return None  # recursive
+        for st in body:
+            for n in ast.walk(st.value):
+                if isinstance(n, (ast.Yield, ast.YieldFrom, ast.Await, ast.NamedExpr, ast.Lambda)):
+                    return None
+                if isinstance(n, ast.Name) and n.id == nm:
+                    return None  # recursive
         pos = [x.arg for x in a.posonlyargs + a.args]
         if len(args) > len(pos):
             return None
@@ -246,7 +251,10 @@ class Evaluator:
                 env[name] = callee.expr(defaults[name], {})
         _depth[0] += 1
         try:
-            return callee.expr(body[0].value, env)
+            for st in body[:-1]:
+                tg = st.targets[0] if isinstance(st, ast.Assign) else st.target
+                env[tg.id] = callee.expr(st.value, env)
+            return callee.expr(body[-1].value, env)
         finally:
             _depth[0] -= 1
 
